@@ -371,12 +371,17 @@ class _parser:
         params = {}
         for attr in known:
             params.update({attr: getattr(self, attr)})
+        # A token that was displaced from its component may state one of the
+        # still unknown components, but only one: the same digits must not be
+        # read as, say, both the month and the day.
+        unset_numbers = [token for token, type, _ in self.unset_tokens if type == 0]
         for attr in unknown:
-            for token, type, _ in self.unset_tokens:
-                if type == 0:
-                    params.update({attr: int(token)})
-                    setattr(self, "_token_%s" % attr, token)
-                    setattr(self, attr, int(token))
+            if not unset_numbers:
+                break
+            token = unset_numbers.pop()
+            params.update({attr: int(token)})
+            setattr(self, "_token_%s" % attr, token)
+            setattr(self, attr, int(token))
 
     def _get_period(self):
         if self.settings.RETURN_TIME_AS_PERIOD:
